@@ -392,10 +392,14 @@ def aten_elu(
 ) -> TFloat:
     """elu(Tensor self, Scalar alpha=1, Scalar scale=1, Scalar input_scale=1) -> Tensor"""
 
-    input_scale = op.CastLike(input_scale, self)
-    scale = op.CastLike(scale, self)
-    self = op.Mul(self, input_scale)
-    return op.Mul(op.Elu(self, alpha=alpha), scale)
+    # elu(x) = scale * x for x > 0, scale * alpha * (exp(input_scale * x) - 1) otherwise:
+    # input_scale only enters the negative branch
+    scale_like = op.CastLike(scale, self)
+    scaled_input = op.Mul(self, op.CastLike(input_scale, self))
+    result = op.Mul(op.Elu(scaled_input, alpha=alpha), scale_like)
+    if input_scale == 1:
+        return result
+    return op.Where(op.Greater(self, op.CastLike(0.0, self)), op.Mul(self, scale_like), result)
 
 
 def aten_elu_backward(
